@@ -36,7 +36,8 @@ def run(tier):
     stats = {'G_instances': 0, 'G_calls': 0, 'G_exact_match_id_variant': 0, 'G_exact_match_addr_variant': 0, 'G_tie_calls': 0,
              'G_unresolved_oracle': 0, 'impl_entail_checked': 0, 'impl_topo_checked': 0, 'model_entail_checked': 0,
              'M_compared': 0, 'R_oracle_runs': 0, 'R_model_compared': 0, 'R_fixed_checked': 0, 'constraints_total': 0,
-             'R_third': 0, 'R_model_skipped_not_generic': 0, 'R_fixed_displaced': 0, 'R_fixed_displaced_fixed_overlap': 0, 'R_fixed_displaced_cluster': 0, 'R_huge': 0, 'R_with_fixed': 0, 'R_moved_something': 0}
+             'R_third': 0, 'R_degenerate_n012': 0, 'Q_sequences': 0, 'Q_calls': 0, 'Q_calls_n_lt_2': 0, 'Q_small_unmoved_checked': 0,
+             'D_calls': 0, 'D_dup_tie_calls': 0, 'D_entail_checked': 0, 'D_topo_checked': 0, 'D_ndebug_calls': 0, 'R_model_skipped_not_generic': 0, 'R_fixed_displaced': 0, 'R_fixed_displaced_fixed_overlap': 0, 'R_fixed_displaced_cluster': 0, 'R_huge': 0, 'R_with_fixed': 0, 'R_moved_something': 0}
     corr_fail = []      # model != implementation (no property failure shown yet)
     samples = []
 
@@ -44,7 +45,7 @@ def run(tier):
     insts = []
     cp = os.path.join(C.VERIF, 'corpus')
     for fn in sorted(os.listdir(cp)) if os.path.isdir(cp) else []:
-        if (fn.startswith('c09_') and fn != 'c09_fixed_displaced.json') or fn.startswith('c20_fd'):
+        if (fn.startswith('c09_') and fn not in ('c09_fixed_displaced.json', 'c09_seq.json', 'c09_dupids.json')) or fn.startswith('c20_fd'):
             try:
                 d = json.load(open(os.path.join(cp, fn)))
                 insts.append(L.Inst(d['scale'], d['rects_minX_maxX_minY_maxY_over_scale'],
@@ -157,6 +158,82 @@ def run(tier):
                 corr_fail.append({'what': 'no address oracle makes the model reproduce the implementation', 'fn': L.MODES[mode],
                                   'input': inst.to_json(), 'implementation': [[a, b, float(g)] for a, b, g in canon(im['cs'])]})
 
+    # ---------------------------------------------------------------- V: public generators with Variables that SHARE an id
+    # (DESIGN 9.18, seeded change C09-5).  Variable::id is documentation only, so equal ids are valid input; CmpNodePos then
+    # orders tied nodes by address.  Judged only by what does not depend on which tied node comes first: no assertion /
+    # crash (assert build), and the verified certificates entail_check / topo_check on the emitted set (assert build and
+    # NDEBUG build: theorem C09_dup_ids_no_overlap says HEAD's set is complete for every id list and either address order).
+    dcases = []
+    cf = os.path.join(C.VERIF, 'corpus', 'c09_dupids.json')
+    if os.path.exists(cf):
+        for d in json.load(open(cf))['cases']:
+            dcases.append((L.Inst(d['scale'], d['rects_minX_maxX_minY_maxY_over_scale'], 0, 0, 'corpus:c09_dupids'), d['ids'], d['modes'], (0, 0)))
+    for _ in range(1500 if thorough else 350):
+        inst, ids = L.gen_dupid(rng)
+        dcases.append((inst, ids, (0, 1, 2), rng.choice([(0, 0), (0, 0), (inst.n(), 1), (inst.n(), 2)])))
+    exe_nd = C.build_harness('c09_rect', ['libvpsc'], 'ndebug')
+    dcap = {}      # at most two reports per (kind, build flavour, corpus / generated)
+    for flavour, hx in (('assert build (USE_ASSERT_EXCEPTIONS)', exe), ('NDEBUG build', exe_nd)):
+        d_cmds, d_keys = [], []
+        for k, (inst, ids, modes, (pk, pd)) in enumerate(dcases):
+            for mode in modes:
+                d_cmds.append(L.cmd_G_ids(inst, mode, ids, pk, pd))
+                d_keys.append((k, mode))
+        dout, crashes = L.run_lines_resilient([hx], d_cmds)
+        hxname = 'build/bin/c09_rect-exc-*' if hx == exe else 'build/bin/c09_rect-ndebug-*'
+        for (at, rc, err) in crashes:
+            k, mode = d_keys[at]
+            src = dcases[k][0].family.startswith('corpus')
+            if dcap.get(('crash', hx, src), 0) < 2:
+                dcap[('crash', hx, src)] = dcap.get(('crash', hx, src), 0) + 1
+                res.violation({'what': '%s with Variables that share an id crashed the process (signal / abort), %s' % (L.MODES[mode], flavour),
+                               'rc': rc, 'stderr': err, 'input': dcases[k][0].to_json(), 'variable_ids': dcases[k][1],
+                               'nodes_ordered_by_address_only': L.dup_tie(dcases[k][0], dcases[k][1], mode),
+                               'replay': 'echo "%s" | %s' % (d_cmds[at], hxname)})
+        de_cmds, de_keys = [], []
+        for idx, ((k, mode), line) in enumerate(zip(d_keys, dout)):
+            inst, ids = dcases[k][0], dcases[k][1]
+            if line is None:
+                continue
+            src = inst.family.startswith('corpus')
+            im = L.parse_impl_C(line)
+            stats['D_calls'] += 1
+            stats['D_ndebug_calls'] += hx == exe_nd
+            stats['D_dup_tie_calls'] += L.dup_tie(inst, ids, mode)
+            hist[inst.family.split('-')[0] + '-' + inst.family.split('-')[-1]] = hist.get(inst.family.split('-')[0] + '-' + inst.family.split('-')[-1], 0) + 1
+            if im['exc'] != 0:
+                if dcap.get(('exc', hx, src), 0) < 2:
+                    dcap[('exc', hx, src)] = dcap.get(('exc', hx, src), 0) + 1
+                    res.violation({'what': '%s failed an assertion / threw when called with Variables that share an id (valid input: ids are '
+                                           'documentation only, variable.h:51), %s' % (L.MODES[mode], flavour),
+                                   'where': im['what'], 'input': inst.to_json(), 'variable_ids': ids,
+                                   'nodes_ordered_by_address_only': L.dup_tie(inst, ids, mode),
+                                   'replay': 'echo "%s" | build/bin/c09_rect-exc-*' % d_cmds[idx]})
+                continue
+            de_cmds.append(L.cmd_E(inst, mode, im['raw']))
+            de_keys.append((idx, k, mode))
+        rc, deout, err, _ = L.run_lines([drv, exe], de_cmds)
+        for (idx, k, mode), line in zip(de_keys, deout):
+            f = line.split()
+            inst, ids = dcases[k][0], dcases[k][1]
+            stats['D_topo_checked'] += 1
+            bad = None
+            if f[2] != '1':
+                bad = 'constraint graph emitted by %s has a cycle (topo_check certificate fails)' % L.MODES[mode]
+            elif mode != 2:
+                stats['D_entail_checked'] += 1
+                if f[1] != '1':
+                    bad = ('constraints emitted by %s do not entail non-overlap (entail_check, proved sound, rejects the set: some pair of '
+                           'rectangles whose intervals in the sweep dimension intersect is not forced apart)' % L.MODES[mode])
+            src = inst.family.startswith('corpus')
+            if bad and dcap.get(('cert', hx, src), 0) < 2:
+                dcap[('cert', hx, src)] = dcap.get(('cert', hx, src), 0) + 1
+                res.violation({'what': bad + '; call with Variables that share an id, ' + flavour, 'input': inst.to_json(), 'variable_ids': ids,
+                               'nodes_ordered_by_address_only': L.dup_tie(inst, ids, mode), 'constraints': dout[idx],
+                               'replay': 'echo "%s" | %s' % (d_cmds[idx], hxname)})
+        if len(deout) != len(de_cmds):
+            corr_fail.append({'what': 'model driver stopped early in the duplicate-id certificate run', 'stderr': err[-800:]})
+
     # ---------------------------------------------------------------- C: Rectangle getters (RectBase.v), exact
     m_cmds = []
     for _ in range(N_M):
@@ -188,6 +265,10 @@ def run(tier):
             ro.append((L.Inst(d['scale'], d['rects_minX_maxX_minY_maxY_over_scale'], int(d['xBorder'].split('/')[0]),
                               int(d['yBorder'].split('/')[0]), 'corpus:c09_fixed_displaced'), d['fixed'], d['thirdPass']))
     n_corpus_ro = len(ro)
+    # n = 0, 1, 2 for every combination of fixed set / thirdPass / caller borders (DESIGN 9.18, seeded change C09-6)
+    degen = L.degenerate_cases()
+    ro += degen
+    stats['R_degenerate_n012'] = len(degen)
     for t in range(N_RO + N_RO_BIG):
         big = t >= N_RO
         inst = L.gen_instance(rng, big=big)
@@ -215,6 +296,7 @@ def run(tier):
         return res.finish()
     model_cmds = []
     model_keys = []
+    degen_reported = 0
     for t, ((inst, fixed, third), line) in enumerate(zip(ro, rout)):
         r = L.parse_impl_R(line)
         fails = L.oracle_R(inst, fixed, r, True)
@@ -230,7 +312,9 @@ def run(tier):
         hard = [f for f in fails if f.get('kind') != 'fixed_moved' or not f['classifier']['explained']]
         soft = [f for f in fails if f.get('kind') == 'fixed_moved' and f['classifier']['explained']]
         replay_cmd = 'echo "%s" | build/bin/c09_rect-exc-*' % L.cmd_R_impl(inst, fixed, third)
-        if hard:
+        if hard and inst.family.startswith('degenerate'):
+            degen_reported += 1
+        if hard and not (inst.family.startswith('degenerate') and degen_reported > 2):
             res.violation({'what': 'removeoverlaps output violates C09', 'failures': hard[:5], 'input': inst.to_json(), 'fixed': fixed,
                            'thirdPass': third, 'output_minX_maxX_minY_maxY': [[float(v) for v in q] for q in r['rects']],
                            'replay': replay_cmd})
@@ -249,7 +333,7 @@ def run(tier):
             stats['R_huge'] += 1
         elif not L.generic_position(inst):
             stats['R_model_skipped_not_generic'] += 1     # exact ties: binary64 rounding of the non-dyadic 1e-3 padding decides a branch
-        elif len(model_cmds) < (900 if thorough else 300):
+        elif len(model_cmds) < (900 if thorough else 300) + len(degen):
             model_cmds.append(L.cmd_R_model(inst, fixed, third, 1))
             model_keys.append((t, r))
         if len(samples) < 7 and fixed and third:
@@ -262,7 +346,7 @@ def run(tier):
         stats['R_model_compared'] += 1
         if m is None or r['exc'] != 0:
             continue
-        worst = max(abs(a - b) for qa, qb in zip(r['rects'], m['rects']) for a, b in zip(qa, qb))
+        worst = max([abs(a - b) for qa, qb in zip(r['rects'], m['rects']) for a, b in zip(qa, qb)] + [F(0)])
         if worst > F(1, 10 ** 6) or m['xb'] != r['xb'] or m['yb'] != r['yb']:
             corr_fail.append({'what': 'removeoverlaps model (three passes, real vpsc::Solver plugged in) differs from the implementation',
                               'max_abs_diff': float(worst), 'input': inst.to_json(), 'fixed': fixed, 'thirdPass': third,
@@ -271,7 +355,52 @@ def run(tier):
     if len(mrout) != len(model_cmds):
         corr_fail.append({'what': 'model driver stopped early in the removeoverlaps run', 'stderr': err[-1500:]})
 
-    res.cov.update({'evaluations': stats['G_calls'] + stats['R_oracle_runs'] + stats['M_compared'],
+    # ---------------------------------------------------------------- V: sequences of calls in ONE process (DESIGN 9.18)
+    # the border globals are set once; Rectangle::xBorder / yBorder, a witness rectangle and every rectangle's width()/height()
+    # are read back after EACH call (theorem C09_call_sequence_borders_sizes; n < 2: C09_removeoverlaps_small)
+    seqs = []
+    cf = os.path.join(C.VERIF, 'corpus', 'c09_seq.json')
+    if os.path.exists(cf):
+        for d in json.load(open(cf))['cases']:
+            seqs.append(L.Seq.from_json(d, 'corpus:c09_seq'))
+    seqs += L.seq_exhaustive()
+    for _ in range(600 if thorough else 150):
+        seqs.append(L.gen_seq(rng))
+    q_cmds = [q.cmd() for q in seqs]
+    rc, qout, err, dt6 = L.run_lines([exe], q_cmds)
+    if rc != 0 or len(qout) != len(seqs):
+        bad = seqs[min(len(qout), len(seqs) - 1)]
+        res.violation({'what': 'a sequence of removeoverlaps calls crashed the harness (abort/segfault)', 'rc': rc, 'stderr': err[-800:],
+                       'input': bad.to_json(), 'replay': 'echo "%s" | build/bin/c09_rect-exc-*' % bad.cmd()})
+    q_reported = {}
+    for q, line in zip(seqs, qout):
+        outs = L.parse_Q(line)
+        stats['Q_sequences'] += 1
+        stats['Q_calls'] += len(outs)
+        stats['Q_calls_n_lt_2'] += sum(1 for c in q.calls if len(c['rects']) < 2)
+        hist[q.family] = hist.get(q.family, 0) + 1
+        k, fails = L.oracle_Q(q, outs)
+        if k is not None:
+            if q_reported.get(q.family, 0) < 2:
+                q_reported[q.family] = q_reported.get(q.family, 0) + 1
+                c = q.calls[k]
+                res.violation({'what': 'removeoverlaps violates C09 in call %d of a sequence of calls in one process (borders / sizes / overlap '
+                                       'read back after each call)' % (k + 1),
+                               'failing_call': {'index': k, 'n_rectangles': len(c['rects']), 'fixed': c['fixed'], 'thirdPass': bool(c['third']),
+                                                'overload': q.to_json()['calls'][k]['overload']},
+                               'failures': fails[:4], 'input': q.to_json(k + 1),
+                               'replay': 'echo "%s" | build/bin/c09_rect-exc-*   (fields per call after "|": exc where xBorder yBorder witnessW witnessH n ...)' % q.cmd(k + 1)})
+            continue
+        u = L.small_unmoved(q, outs)
+        stats['Q_small_unmoved_checked'] += sum(1 for c in q.calls if len(c['rects']) == 1)
+        if u is not None:
+            corr_fail.append({'what': 'a call with fewer than two rectangles moved its rectangle (model: C09_removeoverlaps_small says unchanged)',
+                              'call': u, 'input': q.to_json(u + 1)})
+        if len(samples) < 9 and q.family == 'seq-random':
+            samples.append({'fn': 'removeoverlaps x %d in one process' % len(q.calls), 'input': q.to_json(),
+                            'borders_after_each_call': [[float(o['xb']), float(o['yb'])] for o in outs]})
+
+    res.cov.update({'evaluations': stats['G_calls'] + stats['R_oracle_runs'] + stats['M_compared'] + stats['Q_calls'] + stats['D_calls'],
                     'distinct_nontrivial': stats['G_tie_calls'] + stats['R_moved_something'],
                     'rule': 'non-trivial = generator calls on rectangle sets with at least two equal centres in the scan dimension (the tie-break '
                             'and the event-order rules decide the output) + removeoverlaps runs that moved at least one rectangle by > 1e-3',
@@ -280,7 +409,7 @@ def run(tier):
                     'implementation_follows': ('cmp_node_pos_id' if stats['G_exact_match_addr_variant'] == 0 else 'cmp_node_pos_addr'),
                     'correspondence_disagreements': corr_fail[:5],
                     'timings_s': {'impl_generators': round(dt1, 2), 'model_generators': round(dt2, 2), 'verified_checkers_on_impl': round(dt3, 2),
-                                  'impl_removeoverlaps': round(dt4, 2), 'model_removeoverlaps': round(dt5, 2)}})
+                                  'impl_removeoverlaps': round(dt4, 2), 'model_removeoverlaps': round(dt5, 2), 'impl_sequences': round(dt6, 2)}})
     if not res.violations and (not info['ok'] or corr_fail):
         # proof or correspondence broken; the search above (verified checkers and the property oracle on every real output,
         # corpus, tie-directed and generic generators) found no failing input
@@ -299,6 +428,7 @@ def replay(path):
 
 def warm():
     L.build('exc')
+    C.build_harness('c09_rect', ['libvpsc'], 'ndebug')
 
 
 META = {
@@ -325,7 +455,10 @@ META = {
                 '(C01_static_no_throw_on_dag, C09_static_satisfy_returns; Vpsc/StaticDag.v), and the DFS order of Blocks::totalOrder on the generated (ranked) sets is proved to be a repetition-free topological '
                 'order (Vpsc/StaticDfs.v, C09_last_pass_satisfy_returns: unconditional). So C09_removeoverlaps_no_overlap_static_refine_only_partial needs ONLY that '
                 'Solver::refine returns from the state satisfy produced, in which every constraint already holds exactly (refine is modelled and compared '
-                'with the compiled code, but no no-throw theorem is proved for split / mergeRight). The entail_check certificate is still evaluated on '
+                'with the compiled code, but no no-throw theorem is proved for Blocks::split as a whole). Reduced further in Vpsc/StaticRefine.v: '
+                'C09_removeoverlaps_no_overlap_static_passes_partial needs only that every pass of refine\'s while loop on the trace returns with every slack >= 0 (the closing '
+                'scan cannot throw from an all-satisfied state, exhausting maxtries is a normal return); of Blocks::split the mergeRight half is proved to keep every '
+                'constraint satisfied given that findMinOutConstraint delivers a most violated out-constraint (C01_static_merge_right_all_sat_partial). The entail_check certificate is still evaluated on '
                 'every instance (model\'s and implementation\'s constraint sets) as validation of model and chain lemma. The model is compared exactly '
                 'with the compiled generators on every run.',
         'design_ref': 'DESIGN.md 5.9'},
